@@ -147,6 +147,12 @@ impl JxlThreadPool {
 
     /// Consumes the `Vec`, and runs a job for each element of the `Vec`.
     pub fn for_each_vec<T: Send>(&self, v: Vec<T>, op: impl Fn(T) + Send + Sync) {
+        #[cfg(jxl_oxide_verif)]
+        let v = {
+            let mut v = v;
+            verif::permute(&mut v);
+            v
+        };
         match &self.0 {
             #[cfg(feature = "rayon")]
             JxlThreadPoolImpl::Rayon(pool) => pool.install(|| par_for_each(v, op)),
@@ -163,6 +169,12 @@ impl JxlThreadPool {
         init: U,
         op: impl Fn(&mut U, T) + Send + Sync,
     ) {
+        #[cfg(jxl_oxide_verif)]
+        let v = {
+            let mut v = v;
+            verif::permute(&mut v);
+            v
+        };
         match &self.0 {
             #[cfg(feature = "rayon")]
             JxlThreadPoolImpl::Rayon(pool) => pool.install(|| par_for_each_with(v, init, op)),
@@ -181,6 +193,15 @@ impl JxlThreadPool {
         v: &'a mut [T],
         op: impl Fn(&'a mut T) + Send + Sync,
     ) {
+        #[cfg(jxl_oxide_verif)]
+        if verif::enabled() {
+            if let JxlThreadPoolImpl::None = &self.0 {
+                let mut refs: Vec<&'a mut T> = v.iter_mut().collect();
+                verif::permute(&mut refs);
+                refs.into_iter().for_each(op);
+                return;
+            }
+        }
         match &self.0 {
             #[cfg(feature = "rayon")]
             JxlThreadPoolImpl::Rayon(pool) => pool.install(|| par_for_each(v, op)),
@@ -197,6 +218,16 @@ impl JxlThreadPool {
         init: U,
         op: impl Fn(&mut U, &'a mut T) + Send + Sync,
     ) {
+        #[cfg(jxl_oxide_verif)]
+        if verif::enabled() {
+            if let JxlThreadPoolImpl::None = &self.0 {
+                let mut refs: Vec<&'a mut T> = v.iter_mut().collect();
+                verif::permute(&mut refs);
+                let mut init = init;
+                refs.into_iter().for_each(|item| op(&mut init, item));
+                return;
+            }
+        }
         match &self.0 {
             #[cfg(feature = "rayon")]
             JxlThreadPoolImpl::Rayon(pool) => pool.install(|| par_for_each_with(v, init, op)),
@@ -239,6 +270,51 @@ impl<'scope> JxlScope<'_, 'scope> {
                 op(scope)
             }),
             JxlScopeInner::None(_) => op(JxlScope(JxlScopeInner::None(Default::default()))),
+        }
+    }
+}
+
+/// Verification hook H4 (only compiled with `--cfg jxl_oxide_verif`): a seeded permutation of the
+/// order in which `for_each_*` hands out its jobs, so that a harness can run legal alternative
+/// schedules deterministically (also without threads).
+#[cfg(jxl_oxide_verif)]
+pub mod verif {
+    use std::sync::atomic::{AtomicU64, Ordering};
+
+    static SEED: AtomicU64 = AtomicU64::new(0);
+    static CALLS: AtomicU64 = AtomicU64::new(0);
+
+    /// Sets the permutation seed; 0 disables the hook.
+    pub fn set_job_order_seed(seed: u64) {
+        SEED.store(seed, Ordering::SeqCst);
+        CALLS.store(0, Ordering::SeqCst);
+    }
+
+    /// Number of `for_each_*` calls that were permuted since the seed was set.
+    pub fn permuted_calls() -> u64 {
+        CALLS.load(Ordering::SeqCst)
+    }
+
+    pub(crate) fn enabled() -> bool {
+        SEED.load(Ordering::Relaxed) != 0
+    }
+
+    pub(crate) fn permute<T>(v: &mut [T]) {
+        let seed = SEED.load(Ordering::Relaxed);
+        if seed == 0 || v.len() < 2 {
+            return;
+        }
+        let call = CALLS.fetch_add(1, Ordering::Relaxed);
+        let mut x = seed ^ call.wrapping_mul(0x9E3779B97F4A7C15) ^ (v.len() as u64) << 32;
+        let mut next = move || {
+            x ^= x << 13;
+            x ^= x >> 7;
+            x ^= x << 17;
+            x
+        };
+        for i in (1..v.len()).rev() {
+            let j = (next() % (i as u64 + 1)) as usize;
+            v.swap(i, j);
         }
     }
 }
